@@ -86,10 +86,10 @@ func setup() {
 	x := &world{dir: dir}
 	var err error
 	if x.meta, err = index.NewMetricMetaDatabase("db", filepath.Join(dir, "meta")); err != nil {
-		vevid.Fatal("meta db: %v", err)
+		vevid.OpFailed("meta db: %v", err)
 	}
 	if x.idx, err = index.NewMetricIndexDatabase(filepath.Join(dir, "index"), x.meta); err != nil {
-		vevid.Fatal("index db: %v", err)
+		vevid.OpFailed("index db: %v", err)
 	}
 	x.memMeta = memdb.NewMetadataDatabase(&models.DatabaseConfig{Name: "db"}, x.meta)
 	x.memIdx = memdb.NewIndexDatabase(x.memMeta, x.idx)
@@ -102,7 +102,7 @@ func setup() {
 		FamilyTime:    family,
 	})
 	if err != nil {
-		vevid.Fatal("memory db: %v", err)
+		vevid.OpFailed("memory db: %v", err)
 	}
 	wd = x
 }
@@ -112,7 +112,7 @@ func (x *world) do(o op) {
 	case "write":
 		rows, err := vbox.Rows([]vbox.Point{{Namespace: "ns", Metric: o.Metric, Tags: map[string]string{"host": o.Host}, Field: o.Field, Type: "sum", Value: 1, Timestamp: baseTime}})
 		if err != nil {
-			vevid.Fatal("rows: %v", err)
+			vevid.OpFailed("rows: %v", err)
 		}
 		// what dataFamily.WriteRows does for one row
 		x.md.AcquireWrite()
